@@ -157,9 +157,12 @@ class DataPath:
 
         REPLACE = "path"
         ESC_CODE = rf"\{REPLACE}"
-        if any(ESC_CODE in k for k in spec):
+        if any(isinstance(k, str) and ESC_CODE in k for k in spec):
             # an escaped (literal) mapping: return an un-escaped copy
-            return {k.replace(ESC_CODE, REPLACE): v for k, v in spec.items()}
+            return {
+                (k.replace(ESC_CODE, REPLACE) if isinstance(k, str) else k): v
+                for k, v in spec.items()
+            }
 
         if len(spec) > 1:
             raise MalformedDataPathSpec(
